@@ -12224,6 +12224,13 @@ tsk_table_collection_simplify(tsk_table_collection_t *self, const tsk_id_t *samp
         ret = tsk_trace_error(TSK_ERR_CANT_PROCESS_EDGES_WITH_METADATA);
         goto out;
     }
+    /* Refuse migrations before any table is rewritten in place (the check in
+     * simplifier_flush_output comes after the node, edge, site, mutation and
+     * population tables have been truncated). */
+    if (self->migrations.num_rows != 0) {
+        ret = tsk_trace_error(TSK_ERR_SIMPLIFY_MIGRATIONS_NOT_SUPPORTED);
+        goto out;
+    }
 
     if (samples == NULL) {
         local_samples = tsk_malloc(self->nodes.num_rows * sizeof(*local_samples));
